@@ -80,6 +80,14 @@ func c14Blocked() []string {
 	return out
 }
 
+// c14Canon maps the channel spelling of a group to the group's name.
+func c14Canon(name string) string {
+	if types.IsChannel(name) {
+		return types.ChnToGrp(name)
+	}
+	return name
+}
+
 func c14Round(e *vfEnv, r *vfkit.R, rng *rand.Rand, round int) {
 	w := vfNewWorld(e, r, rng)
 	nusers := 3 + rng.Intn(2)
@@ -91,7 +99,8 @@ func c14Round(e *vfEnv, r *vfkit.R, rng *rand.Rand, round int) {
 	setup := w.conn(users[0], false)
 	setup1 := w.conn(users[1], false)
 	g0, _ := setup.newGroup(false, map[string]any{"public": "g0"})
-	g1, _ := setup1.newGroup(rng.Intn(2) == 0, map[string]any{"public": "g1"})
+	g1IsChan := rng.Intn(2) == 0
+	g1, _ := setup1.newGroup(g1IsChan, map[string]any{"public": "g1"})
 	for _, u := range users {
 		c := w.conn(u, false)
 		c.sub(g0, nil)
@@ -103,6 +112,10 @@ func c14Round(e *vfEnv, r *vfkit.R, rng *rand.Rand, round int) {
 	e.vfQuiesce()
 	topicsFor := func(u *vfUser) []string {
 		ts := []string{"me", g0, g1, "fnd"}
+		if g1IsChan {
+			// the channel spelling: attaches as a reader; a {leave} may name either spelling
+			ts = append(ts, types.GrpToChn(g1))
+		}
 		for _, v := range users {
 			if v != u {
 				ts = append(ts, v.uid.UserId())
@@ -237,7 +250,7 @@ func c14Round(e *vfEnv, r *vfkit.R, rng *rand.Rand, round int) {
 				}
 			}
 			if f.Kind == "ctrl" && f.code() == 205 {
-				evicted[f.str("topic")] = true
+				evicted[c14Canon(f.str("topic"))] = true
 			}
 		}
 		// in send order: the first unanswered request of a session is the one that matters
@@ -257,15 +270,15 @@ func c14Round(e *vfEnv, r *vfkit.R, rng *rand.Rand, round int) {
 			}
 			r.Hit("request_answered")
 			if f := byID[id]; f != nil {
-				if kt[0] == "del" && f.code() == 200 && ((kt[1] == g0 && wk.u == users[0]) || (kt[1] == g1 && wk.u == users[1])) {
-					deletedTopics[kt[1]] = true
+				if kt[0] == "del" && f.code() == 200 && ((kt[1] == g0 && wk.u == users[0]) || (c14Canon(kt[1]) == g1 && wk.u == users[1])) {
+					deletedTopics[c14Canon(kt[1])] = true
 				}
 				continue
 			}
 			if wk.c.isClosed() {
 				continue // connection gone (closed by the client, by eviction on account deletion, or for slowness)
 			}
-			if kt[0] == "leave" && evicted[kt[1]] {
+			if kt[0] == "leave" && evicted[c14Canon(kt[1])] {
 				r.Hit("leave_answered_by_eviction")
 				continue
 			}
@@ -387,6 +400,16 @@ func c14Round(e *vfEnv, r *vfkit.R, rng *rand.Rand, round int) {
 		r.Hit("no_sessions_after_disconnect")
 		if len(t.sessions) != 0 {
 			r.Violation("session-leak:"+topicKind(t.name), fmt.Sprintf("all clients disconnected but topic %s still lists %d sessions", topicKind(t.name), len(t.sessions)), nil)
+		}
+		// ... and every user's online count is back to zero
+		if t.cat != types.TopicCatMe && t.cat != types.TopicCatFnd {
+			for uid, pud := range t.perUser {
+				r.Hit("online_counter")
+				if pud.online != 0 {
+					r.Violation("online-counter-after-disconnect:"+topicKind(t.name), fmt.Sprintf("all clients disconnected but topic %s counts %d online sessions of a user (channel reader: %v)", topicKind(t.name), pud.online, pud.isChan),
+						map[string]any{"topic": t.name, "user": uid.UserId(), "srvlog": vfSrvLogGrep(40, t.name)})
+				}
+			}
 		}
 		return true
 	})
